@@ -96,8 +96,13 @@ func (c *client) PushBlob(ctx context.Context, repo string, desc ociregistry.Des
 	}
 	if desc.Size == 0 && r != nil {
 		var buf [1]byte
-		if n, _ := io.ReadFull(r, buf[:]); n > 0 {
+		n, err := io.ReadFull(r, buf[:])
+		if n > 0 {
 			return ociregistry.Descriptor{}, fmt.Errorf("blob content is not empty but descriptor size is 0: %w", ociregistry.ErrSizeInvalid)
+		}
+		if err != io.EOF {
+			// The reader has failed, which isn't the same as being empty.
+			return ociregistry.Descriptor{}, fmt.Errorf("cannot read blob content: %w", err)
 		}
 		r = nil
 	}
